@@ -58,11 +58,11 @@ CHECKS = {
    "TLA+ escaper/denotation model checked by TLC + translation validation of generated JavaScript by executing it", "§5 C14"),
  "C20": ("model_checking",
    "SoyData.tla: abstract Go values (all integer/float kinds, typed nils, interfaces, time, slices, maps, structs with embedded/unexported fields, marshalers) and Convert to the Soy value model, with the value laws (idempotence, equality symmetric and numeric across int/float, truthiness table incl. NaN, text a function); TLC checks the laws on all values of depth <= 2 and all pairs, that 5 deviations are caught, and exports descriptors with expected values; the harness constructs the real Go values (reflect.StructOf for generated shapes), runs data.New/NewWith under both option settings and compares, pushes all pairs through Equals/Truthy/String; random nested values are validated by TLC (SoyDataTrace)",
-   "descriptor -> real Go value construction is harness code; kinds outside 'JSON-like' (chan, func, complex, non-string-keyed maps, uint64 >= 2^63) are recorded, not judged",
+   "descriptor -> real Go value construction is harness code; kinds outside 'JSON-like' (chan, func, complex, non-string-keyed maps, uint64 >= 2^63) are recorded, not judged; every call into the library runs in worker processes; a conversion or value law that does not return is confirmed alone in a fresh worker, shrunk, and reported as no-return (violation)",
    "TLA+ conversion/value-law model checked by TLC + TLC-exported descriptors replayed on the real converter + TLC trace validation", "§5 C20"),
  "C16": ("model_checking",
    "SoyDirectives.tla / SoyEscape.tla: every encoding directive as a function with its contract (decoder, output alphabet, length bound; truncate under both readings of the limit); TLC checks the contracts on all short strings over an adversarial alphabet and that the named deviations are caught (C16Model), exports strings x arguments x single directives and pairs, and validates sampled results (C16Trace); the real Go directives are rendered and judged with independent decoders (percent-decoder, HTML text decoder, JS string-literal evaluation and JSON.parse in node); the JavaScript counterparts are judged as the code soyjs GENERATES for {$x|directive} run in node (plus the bare library functions for the contracts that are theirs alone)",
-   "decoders are harness/node code implementing contracts the spec states; '+' for space in escapeUri is pinned by the repository's tests",
+   "decoders are harness/node code implementing contracts the spec states; '+' for space in escapeUri is pinned by the repository's tests; Go-side renders run under a watchdog: a render in flight for more than 10 s is re-run alone in a fresh process and, if it does not return there either, reported as no-return (violation); every JS-side failure is confirmed in a fresh node process before it is judged; every Go directive with an implementation must have a JavaScript counterpart",
    "TLA+ directive contracts checked by TLC + independent decoders applied to real Go renders and to generated JavaScript", "§5 C16"),
  "C04": ("translation_validation",
    "every program (seeded random typed expressions, generated bundles with control flow/calls/params/lets/msg/globals/$ij/autoescape modes/directive chains, and systematic families for functions, directives, loop helpers, null-safe references and lets in untaken branches) is translated by the JS generator, the translation is executed by node, the Go renderer renders the same program, and TLC judges each recorded [program, go, js] line against the reference interpreter (C04Trace) with the common-subset predicate SoyCommon.InCommonSubset deciding which lines are judged and CanonRefs comparing reference spellings; SoyJsScope.tla model-checks JS static naming against SoyExec's dynamic scoping (4 deviations replayed)",
